@@ -12,7 +12,7 @@ from mc.ref import ratelaw, nullspace
 
 core.setup_paths()
 
-LABELS = ["A", "B", "C"]
+LABELS = ["A", "B", "C", "D"]
 
 
 def R(sub, prod, kf, kr=0.0):
@@ -29,15 +29,18 @@ NETWORKS = [
     ("cycle", [R([("A", 1)], [("B", 1)], 1.0), R([("B", 1)], [("C", 1)], 0.7), R([("C", 1)], [("A", 1)], 0.4)]),
     ("A->B,2B->C", [R([("A", 1)], [("B", 1)], 0.9), R([("B", 2)], [("C", 1)], 0.05, 0.2)]),
     ("none", []),
+    # beyond three species: A + B <-> C + D and 2 D -> A (conserved: A + C + 2 D ... computed, not assumed)
+    ("4-species", [R([("A", 1), ("B", 1)], [("C", 1), ("D", 1)], 0.04, 0.3), R([("D", 2)], [("A", 1)], 0.02, 0.1),
+                   R([("B", 1)], [("C", 1)], 0.5, 0.25)]),
 ]
 
 # species D: A sees a zero-diffusivity wall in environment 'w'; B homogeneous; C per-environment
-DIFF = [{"c": 1.0, "w": 0.0}, 0.6, {"c": 0.3, "default": 0.9}]
+DIFF = [{"c": 1.0, "w": 0.0}, 0.6, {"c": 0.3, "default": 0.9}, {"w": 0.4, "c": 0.2}]
 
 
 def spaces(tier):
     out = []
-    shapes = [(2, 1, 1), (3, 1, 1), (2, 2, 1), (3, 2, 1), (2, 2, 2), (3, 2, 2)]
+    shapes = [(2, 1, 1), (3, 1, 1), (2, 2, 1), (3, 2, 1), (2, 2, 2), (3, 2, 2), (4, 4, 1), (4, 3, 2), (5, 1, 1)]
     bcs = [dict(zip("xyz", c)) for c in itertools.product(["reflecting", "periodical"], repeat=3)]
     if tier == "quick":
         shapes = [(2, 1, 1), (3, 1, 1), (3, 2, 1), (2, 2, 2)]
@@ -64,22 +67,25 @@ def gen_cases(tier, seed0):
     for netname, reactions in NETWORKS:
         for spname, space in spaces(tier):
             n = ratelaw.ncells(space)
+            nsp = 4 if netname == "4-species" else 3
+            if nsp == 4 and tier == "quick" and not (spname.endswith("rrr") or spname.startswith("graph")):
+                continue
             for variant in ("plain", "chemostat", "chemostat2"):
                 if variant != "plain" and not (netname in ("A+B<->C", "cycle", "none", "A<->B") and
                                                (spname.endswith(("rrr", "ppp")) or spname.startswith("graph"))):
                     continue
-                state = [float(11 + (7 * q) % 23) for q in range(3 * n)]
+                state = [float(11 + (7 * q) % 23) for q in range(nsp * n)]
                 chem = None
                 if variant == "chemostat":
-                    chem = [0] * (3 * n)
+                    chem = [0] * (nsp * n)
                     chem[2 * n + 0] = 1          # species C chemostated in the first and the last cell
                     chem[2 * n + n - 1] = 1
                 elif variant == "chemostat2":
-                    chem = [0] * (3 * n)
+                    chem = [0] * (nsp * n)
                     for i in range(n):           # species C chemostated in every odd cell and in cell 0
                         if i % 2 == 1 or i == 0:
                             chem[2 * n + i] = 1
-                spec = {"species": [{"label": LABELS[s], "D": DIFF[s]} for s in range(3)], "reactions": reactions,
+                spec = {"species": [{"label": LABELS[s], "D": DIFF[s]} for s in range(nsp)], "reactions": reactions,
                         "envs": ["c", "w"], "space": space, "state": state}
                 if chem:
                     spec["chemostats"] = chem
@@ -154,6 +160,11 @@ def check_case(case):
         base = [sum(c[s] * sum(d[0][s * n:(s + 1) * n]) for s in range(ns)) for c in cs]
         bad = False
         for k, rec in enumerate(d):
+            if kind == "euler" and any((v != v) or abs(v) > 1e100 for v in rec):
+                # explicit Euler with a step beyond its stability limit diverges (inf - inf = nan): numerics of the
+                # method, not a conservation defect; the run is judged up to this sample and the truncation counted
+                stats["diverged_euler_runs"] = stats.get("diverged_euler_runs", 0) + 1
+                break
             if any(v < 0 for v in rec):
                 stats["negative_samples"] += 1
             for ci, c in enumerate(cs):
@@ -191,6 +202,7 @@ def _work(job):
         acc.count("runs", st["runs"])
         acc.count("runs_in_which_the_state_changed", st["changed_runs"])
         acc.count("samples_with_a_negative_entry(tau-leap)", st["negative_samples"])
+        acc.count("euler_runs_truncated_at_divergence(step beyond stability limit)", st.get("diverged_euler_runs", 0))
         acc.count("systems")
         for key, what in res:
             acc.violation(key, what, case)
